@@ -651,6 +651,7 @@ class C10(C05):
         for h in (b'MOV $ 0, $ 1\nORG -1\n', b'MOV $ 0, $ 1\nEND -1\n', b'ORG 1\nMOV.I $ 0, $ 1\n', b'ORG 0\nMOV.I $ 0, $ 1', b'MOV $ 0, $ 1\nEND 0', b'', b'\n', b';x', b'ORG 0\n',
                   b'ORG 0\nMOV.I $ 0 $ 1\n', b'ORG 0\nMOV.I $ 99999999999999999999, $ 1\n', b'ORG 0\nMOV.I $ -1, $ -8001\n', b'MOV # 0, # 1\n', b'END\nMOV $ 0, $ 1\n',
                   b'ORG 1\n', b'ORG 3\n', b'END 2\n', b';x\nORG 5\n', b'ORG 1\nEND\n', b'ORG 7',
+                  b',\nMOV $ 0, $ 1\n', b',\nMOV.I $ 0, $ 1\n', b'MOV.I $ 0, $ 1\n , \n', b'MOV $ 0, $ 1\n,;x\n', b', ,', b'ORG 0\n,,\nMOV.I $ 0, $ 1\n',
                   b'MOV $ 2, > -1\n', b'MOV > 2, $ 1\n', b'DAT # 0, > 1\n', b'JMP * 1, $ 0\n', b'MOV { 1, } 2\n', b'ADD # 1, } 2\n', b'CMP < 1, > 2\n', b'DJN @ 1, * 2\n'):
             for mode in (0, 2):
                 lines.append([11, mode, 8000, 8000, 80000, 8000, 8000, 100, 100] + list(h))
@@ -658,10 +659,17 @@ class C10(C05):
 
     def corrupt(self, rng, t):
         ls = t.split(b'\n')
-        k = rng.randint(0, 10)
+        k = rng.randint(0, 11)
         i = rng.randint(0, max(0, len(ls) - 1))
         f = ls[i].split()
-        if k == 10:
+        if k == 11:
+            # a line that holds nothing but commas (every field of a line lost, or a stray line): not blank, not a comment
+            junk = rng.choice([b',', b' , ', b', ,', b',;c', b'\t,\t', b',,'])
+            if rng.randint(0, 1):
+                ls[i] = junk
+            else:
+                ls.insert(i, junk)
+        elif k == 10:
             # another addressing mode in one place: the other rule set's modes in an otherwise well-formed line
             pos = [j for j, c in enumerate(ls[i]) if c in b'#$@<>*{}']
             if pos:
